@@ -385,7 +385,7 @@ _C07Q = ["c07_identifier_len1", "c07_identifier_len3", "c07_property_len3", "c07
          "c07_cabinet_len3", "c07_guid_total_short", "c07_int_gate", "c07_str_gate"]
 _C07T = ["c07_integer_len6", "c07_doubleinteger_len10", "c07_cabinet_len13"]
 PROPS["C07"] = {
-    "level": "model_checking", "engine": "kani",
+    "level": "model_checking", "engine": "kani+mir-smt", "mir": True,
     "technique": "bounded model checking (Kani/CBMC) of Category::validate and Column::is_valid_value on symbolic inputs "
                  "against reference predicates written from the documented grammar (differential)",
     "claim": "Column::is_valid_value agrees with the documented validity for every 32-bit integer / null against every "
@@ -395,7 +395,11 @@ PROPS["C07"] = {
              "grammars go through str::split, which runs CBMC out of memory at 24 GB even on ten CONCRETE strings "
              "(measured), so they are outside the claim together with GUID; where the "
              "documentation is silent (leading '+', the most negative integer) no verdict is demanded. GUID grammar "
-             "(38 symbolic bytes through Uuid::parse_str: no answer in 13 min) and the insert/update gate itself are outside.",
+             "(38 symbolic bytes through Uuid::parse_str: no answer in 13 min) is outside. The insert gate itself is decided on "
+             "the MIR of Insert::exec's validation phase (engine M, loops unrolled to 3 visits per block, rows/columns/values "
+             "opaque, lengths symbolic, is_valid_value uninterpreted): the mutation phase is reached only if every visited row "
+             "has the arity of the table and every value taken out of it was passed to Column::is_valid_value and accepted. "
+             "Update::exec's gate and batches longer than the unrolling bound are outside.",
     "note": "Trusted: Kani/CBMC, the reference predicates in kani/src/proofs/c07.rs. Outside: Insert/Update::exec's use of "
             "the validators, arities, strings longer than the stated lengths, non-ASCII strings, GUID and the library-built "
             "UUID / language-list values.",
